@@ -322,6 +322,63 @@ macro_rules! wide_int_sweep {
     }};
 }
 
+/// Wrapping<16..64-bit and pointer-sized> integers: the same laws on inputs whose intermediate
+/// quantities stay far from the type limits (so that wrap-around cannot be part of the answer)
+macro_rules! wide_wrapping_sweep {
+    ($sub:expr, $cfg:expr, $idx:expr, $I:ty, $name:expr) => {{
+        type I = $I;
+        let min = (<I>::MIN as i128) / 8;
+        let max = (<I>::MAX as i128) / 8;
+        let mut rng = Rng::for_case(concat!("wide_wrapping/", $name), $cfg.case_seed(), $idx);
+        let mut pick = |rng: &mut Rng| -> i128 {
+            let v = match rng.below(8) {
+                0 => 0,
+                1 => 1,
+                2 => -1,
+                3 | 4 => rng.range_i64(-40, 40) as i128,
+                _ => {
+                    let bits = rng.below(<I>::BITS as u64 - 3) as u32;
+                    let m = (rng.next_u64() as i128) & ((1i128 << bits) - 1);
+                    if min < 0 && rng.bool() { -m } else { m }
+                }
+            };
+            v.clamp(min, max)
+        };
+        let (v, lo, hi) = (pick(&mut rng), pick(&mut rng), pick(&mut rng));
+        let (a, b, c) = (Wrapping(v as I), Wrapping(lo as I), Wrapping(hi as I));
+        let mut h = H64::new();
+        h.s($name).i(v).i(lo).i(hi);
+        let mut bad: Option<(&str, &str, String)> = None;
+        let mut chk = |api: &'static str, f: &'static str, exp: Option<i128>, got: Result<Wrapping<I>, String>| {
+            $sub.saw(api);
+            let ok = match (&got, exp) {
+                (Ok(g), Some(e)) => (g.0 as i128) == e,
+                (Err(_), None) => true,
+                _ => false,
+            };
+            if !ok && bad.is_none() {
+                let class = match (&got, exp) {
+                    (Ok(_), None) => "missing_panic",
+                    (Err(_), _) => "panic",
+                    _ => "wrong_value",
+                };
+                bad = Some((api, class, format!("{}::{} value={} lower={} upper={} -> {:?}, expected {:?}", $name, f, v, lo, hi, got, exp)));
+            }
+        };
+        chk("Clamp::clamped", "clamped", if lo > hi { None } else { Some(v.max(lo).min(hi)) }, guarded(|| a.clamped(b, c)));
+        chk("Wrap::wrapped_between", "wrapped_between", if !(lo < hi) || lo < 0 || hi <= 0 { None } else { Some(lo + (v - lo).rem_euclid(hi - lo)) }, guarded(|| a.wrapped_between(b, c)));
+        chk("Wrap::wrapped", "wrapped", if hi <= 0 { None } else { Some(v.rem_euclid(hi)) }, guarded(|| a.wrapped(c)));
+        chk("Wrap::pingpong", "pingpong", if hi <= 0 { None } else { let m = v.rem_euclid(2 * hi); Some(if m <= hi { m } else { 2 * hi - m }) }, guarded(|| a.pingpong(c)));
+        match bad {
+            None => $sub.held(h.get(), lo <= hi),
+            Some((api, class, detail)) => {
+                let vio = violation(PROP, $sub, api, $name, class, "other", detail, $cfg.case_seed(), $idx);
+                $sub.violated(vio)
+            }
+        }
+    }};
+}
+
 // ------------------------------------------------------------------------------------
 // floats
 
@@ -459,6 +516,20 @@ macro_rules! float_case {
             let inb = x.is_between(lo, hi);
             if !(r == e) || inb != (lo <= x && x <= hi) || r.clamped(lo, hi) != r || !r.is_between(lo, hi) {
                 bad = Some(("Clamp::clamped", "wrong_value", format!("{}: {:e}.clamped({:e},{:e}) = {:e} expected {:e}; is_between = {}", $name, x, lo, hi, r, e, inb)));
+            }
+            // values that are not ordered with the bounds, and infinite ones: the range test is the
+            // IEEE conjunction lower <= x && x <= upper, and a value the range test accepts is
+            // returned unchanged by clamped
+            for xs in [F::NAN, F::INFINITY, F::NEG_INFINITY] {
+                let inb = xs.is_between(lo, hi);
+                let cl = guarded(|| xs.clamped(lo, hi));
+                if inb != (lo <= xs && xs <= hi) {
+                    bad = Some(("IsBetween::is_between", "wrong_value", format!("{}: {:e}.is_between({:e},{:e}) = {}, the closed-interval test gives {}", $name, xs, lo, hi, inb, lo <= xs && xs <= hi)));
+                } else if let Ok(c) = cl {
+                    if inb && !(c == xs) {
+                        bad = Some(("Clamp::clamped", "wrong_value", format!("{}: {:e} passes is_between({:e},{:e}) but clamped returns {:e}", $name, xs, lo, hi, c)));
+                    }
+                }
             }
             $sub.saw("partial_min");
             $sub.saw("partial_max");
@@ -659,6 +730,18 @@ fn main() {
             5 => wide_int_sweep!(s, &cfg, i, u32, "u32"),
             6 => wide_int_sweep!(s, &cfg, i, u64, "u64"),
             _ => wide_int_sweep!(s, &cfg, i, usize, "usize"),
+        });
+        rep.push(s);
+        let proto = Sub::new("wide_wrapping", "Wrapping<i16 i32 i64 isize u16 u32 u64 usize>: (value, lower, upper) from {0, +-1, small, random magnitude} within an eighth of the type's range (no wrap-around in any intermediate): clamped / wrapped_between / wrapped / pingpong against an i128 model incl. required panics; non-trivial = ordered bounds; distinct by hash of the triple").with_floor((nw / 16).min(50_000));
+        let s = run_cases(&cfg, proto, nw / 2, |s, i| match i % 8 {
+            0 => wide_wrapping_sweep!(s, &cfg, i, i16, "Wrapping<i16>"),
+            1 => wide_wrapping_sweep!(s, &cfg, i, i32, "Wrapping<i32>"),
+            2 => wide_wrapping_sweep!(s, &cfg, i, i64, "Wrapping<i64>"),
+            3 => wide_wrapping_sweep!(s, &cfg, i, isize, "Wrapping<isize>"),
+            4 => wide_wrapping_sweep!(s, &cfg, i, u16, "Wrapping<u16>"),
+            5 => wide_wrapping_sweep!(s, &cfg, i, u32, "Wrapping<u32>"),
+            6 => wide_wrapping_sweep!(s, &cfg, i, u64, "Wrapping<u64>"),
+            _ => wide_wrapping_sweep!(s, &cfg, i, usize, "Wrapping<usize>"),
         });
         rep.push(s);
     }
